@@ -169,6 +169,15 @@ func (e *Exec) execVec(c *Cmd, sl *slots) (string, bool, bool) {
 		k := int64(c.num("k", 1))
 		var pl segment.VecPostingsList
 		var err error
+		firedSuffix := ""
+		if ef, ok := c.KV["engfail"]; ok {
+			// the engine fails inside this search
+			parts := strings.SplitN(ef, ":", 2)
+			n, _ := strconv.Atoi(parts[1])
+			e.vecArmFault(parts[0], n)
+			defer faiss.VerifClearFaults()
+			firedSuffix = parts[0] + ":" + parts[1]
+		}
 		if es, ok := c.KV["elig"]; ok {
 			// one slice per distinct eligible set, handed to every search that names it (a caller
 			// keeps its filter result and reuses it; the callee must not write to it)
@@ -177,8 +186,15 @@ func (e *Exec) execVec(c *Cmd, sl *slots) (string, bool, bool) {
 		} else {
 			pl, err = h.Search(q, k, nil)
 		}
+		fired := ""
+		if firedSuffix != "" {
+			parts := strings.SplitN(firedSuffix, ":", 2)
+			n, _ := strconv.Atoi(parts[1])
+			fired = " fired=" + b01(e.vecFired(parts[0], n))
+			faiss.VerifClearFaults()
+		}
 		if err != nil {
-			return errKind(err), true, true
+			return errKind(err) + fired, true, true
 		}
 		// every second search of a handle recycles the iterator of its previous search (outside
 		// par blocks, where handles are private to a goroutine anyway)
@@ -212,7 +228,7 @@ func (e *Exec) execVec(c *Cmd, sl *slots) (string, bool, bool) {
 		if len(hits) > 0 {
 			hs = strings.Join(hits, ",")
 		}
-		return fmt.Sprintf("cnt=%d hits=%s", pl.Count(), hs), true, true
+		return fmt.Sprintf("cnt=%d hits=%s%s", pl.Count(), hs, fired), true, true
 	case "vclose":
 		if sl != nil && sl.par {
 			if x, ok := sl.vh[c.Pos[0]]; ok {
